@@ -6,7 +6,7 @@ From OxiVerif Require Import Base.Common Base.Crc32 Spec.Filter Spec.Adam7 Spec.
   Proofs.Bridge Proofs.LiftColor Proofs.OutputProofs Proofs.OutputDecode Proofs.PipelineLossless Proofs.EmittedStream.
 Local Open Scope Z_scope.
 
-Theorem emitted_file_decodes_partial (L : leaves) e o img max_size c pic (inflate : list Z -> option (list Z)) (p' : pngdata) :
+Theorem emitted_file_decodes_partial e o img max_size c pic (inflate : list Z -> option (list Z)) (p' : pngdata) :
   optimize_alpha o = false -> scale_16 o = false -> means pic img ->
   optimize_raw e o img max_size = Ok (Some c) ->
   (* the decompressor undoes the compressor (zlib oracle assumption, re-validated on the recorded calls of every run) *)
@@ -20,6 +20,6 @@ Theorem emitted_file_decodes_partial (L : leaves) e o img max_size c pic (inflat
 Proof.
   intros Ha Hs Hm H Hz Eraw Eidat Hwf Hni Hwr Hd Haux.
   rewrite (output_decodes inflate p' Hwf Hni Hwr Hd Haux).
-  destruct (emitted_stream_lossless_partial L e o img max_size c pic Ha Hs Hm H) as (d & stream & Ed & Hdec).
+  destruct (emitted_stream_lossless_partial e o img max_size c pic Ha Hs Hm H) as (d & stream & Ed & Hdec).
   rewrite Eidat, Ed, Hz, Eraw. exact Hdec.
 Qed.
